@@ -162,6 +162,12 @@ func Evaluate(c Case, res subproc.Result, phase string) (out []Finding, obs Obs,
 				fmt.Sprintf("%s: %.7s -> %.7s", ch.Ref, ch.Old, ch.New))
 		}
 	}
+	if c.Mode != "L" && obs.Build != nil && *obs.Build != "" {
+		add("damage", "the cache cannot be built after the merge ("+normalise(*obs.Build)+")", *obs.Build)
+	}
+	if c.Mode != "L" && obs.Resolve != nil && *obs.Resolve != "" {
+		add("damage", "a bug cannot be resolved through the rebuilt cache after the merge ("+normalise(*obs.Resolve)+")", *obs.Resolve)
+	}
 	if obs.ReadAll != "" && len(out) == 0 {
 		add("damage", "ReadAll fails after the merge ("+normalise(obs.ReadAll)+")", obs.ReadAll)
 	}
